@@ -728,8 +728,10 @@ func main() {
 				var k string
 				var n int
 				fmt.Sscanf(string(src), "%s x %d", &k, &n)
-				runDeep(n*20, 60*time.Second, []string{k}) // runDeep divides scope-opening shapes by 20 itself
-				_ = k
+				if k == "ifelse" || k == "funclit" || k == "blocks" {
+					n *= 20 // runDeep divides the depth of scope-opening shapes by 20
+				}
+				runDeep(n, 60*time.Second, []string{k})
 			}
 		case fs[0] == "adv" && len(fs) >= 4:
 			src, _ := vh.UnHex(fs[len(fs)-1])
